@@ -196,10 +196,21 @@ def _is_int_exp(n, env=None):
     return isinstance(n, ast.Call) and dotted(n.func) == "int" and bool(n.args) and "exp" in src(n.args[0])
 
 
+def _norm_atom(a):
+    """An atom with the analyser's local aliases of attribute chains written out: `den = node.right` ...
+    `isinstance(den, Constant)` reads `isinstance(node.right, Constant)`."""
+    for _ in range(2):
+        for nm, vals in _BOOL_ENV.items():
+            vs = [v for v in vals if isinstance(v, ast.AST)]
+            if len(vs) == 1 and len(vals) == 1 and isinstance(vs[0], ast.Attribute) and nm in a:
+                a = re.sub(rf"(?<![\w.]){re.escape(nm)}(?![\w])", src(vs[0]), a)
+    return a
+
+
 def implied(pf, pred, positive=True):
     """Is some atom matching ``pred`` forced to ``positive`` by the path formula?"""
     for a in pf.atoms():
-        if pred(a):
+        if pred(a) or pred(_norm_atom(a)):
             goal = atom(a) if positive else Not(atom(a))
             if implies(pf, goal):
                 return True
@@ -389,22 +400,22 @@ def _check_binary(prog, rep, fi, d, arm, env):
                 continue
             if op in ("+", "-"):
                 ok = form == "MAX(child, child)"
-                rep.ob("R04.1", construct, ok, "deg(a +- b) <= max(deg a, deg b)" if ok else f"answers {form}; the degree of a sum can be as large as max(deg a, deg b)", loc=loc, detail="form")
+                rep.ob("R04.1", construct, ok, "deg(a +- b) <= max(deg a, deg b)" if ok else f"answers {form}; the degree of a sum can be as large as max(deg a, deg b)", loc=loc, detail="form", robust=not form.startswith("?"))
             elif op == "*":
                 ok = form == "SUM(child, child)"
-                rep.ob("R04.1", construct, ok, "deg(a * b) = deg a + deg b" if ok else f"answers {form}; the degree of a product is deg a + deg b", loc=loc, detail="form")
+                rep.ob("R04.1", construct, ok, "deg(a * b) = deg a + deg b" if ok else f"answers {form}; the degree of a product is deg a + deg b", loc=loc, detail="form", robust=not form.startswith("?"))
             elif op == "/":
                 ok = form == "CHILD" and implied(s.pf, P_CONST_RIGHT, True) and _child_is(s.value, "left", env)
-                rep.ob("R04.1", construct, ok, "a / c with a Constant denominator has the degree of a" if ok else f"answers {form} for a quotient without requiring a Constant denominator (or not from the numerator): x / y would be classified polynomial", loc=loc, detail="form")
+                rep.ob("R04.1", construct, ok, "a / c with a Constant denominator has the degree of a" if ok else f"answers {form} for a quotient without requiring a Constant denominator (or not from the numerator): x / y would be classified polynomial", loc=loc, detail="form", robust=not form.startswith("?"))
             elif op == "**":
                 b1 = implied(s.pf, P_CONST_RIGHT, True)
                 b2 = implied(s.pf, P_NUMBER, True)
                 b34 = nonneg_integral(s.pf)
                 okf = form == "SCALE(child, int(exponent))"
-                rep.ob("R04.1", construct, okf, "deg(a ** n) = n * deg a" if okf else f"answers {form} for a power", loc=loc, detail="form")
-                rep.ob("R04.1", construct, b1, "exponent must be a Constant node" if b1 else "a finite degree is answered although the exponent need not be a Constant node", loc=loc, detail="belief:constant-exponent")
-                rep.ob("R04.1", construct, b2, "exponent value must be a number (not an array)" if b2 else "a finite degree is answered although the exponent value need not be a scalar number", loc=loc, detail="belief:numeric-exponent")
-                rep.ob("R04.1", construct, b34, "exponent must be a non-negative integer" if b34 else "a finite degree is answered without requiring the exponent to be a non-negative integer: x**0.5 / x**-1 would be classified polynomial", loc=loc, detail="belief:nonneg-integral-exponent")
+                rep.ob("R04.1", construct, okf, "deg(a ** n) = n * deg a" if okf else f"answers {form} for a power", loc=loc, detail="form", robust=not form.startswith("?"))
+                rep.ob("R04.1", construct, b1, "exponent must be a Constant node" if b1 else "a finite degree is answered although the exponent need not be a Constant node", loc=loc, detail="belief:constant-exponent", robust=False)   # text atoms; the shape-free decision is the power-scenario rule
+                rep.ob("R04.1", construct, b2, "exponent value must be a number (not an array)" if b2 else "a finite degree is answered although the exponent value need not be a scalar number", loc=loc, detail="belief:numeric-exponent", robust=False)   # text atoms; the shape-free decision is the power-scenario rule
+                rep.ob("R04.1", construct, b34, "exponent must be a non-negative integer" if b34 else "a finite degree is answered without requiring the exponent to be a non-negative integer: x**0.5 / x**-1 would be classified polynomial", loc=loc, detail="belief:nonneg-integral-exponent", robust=False)   # text atoms; the shape-free decision is the power-scenario rule
     # None propagation: a finite answer may only be given when both children are finite (for + - *)
     # (checked through the forms: MAX/SUM over None would raise TypeError, not mis-classify)
     # unknown operators
